@@ -170,6 +170,13 @@ func CompileCRD(crd *extv1.CustomResourceDefinition) (*KindInfo, error) {
 		if crSchema.Properties == nil {
 			crSchema.Properties = map[string]spec.Schema{}
 		}
+		// the API server's OpenAPI builder adds the type meta fields to every CR schema
+		if _, ok := crSchema.Properties["apiVersion"]; !ok {
+			crSchema.Properties["apiVersion"] = *spec.StringProperty()
+		}
+		if _, ok := crSchema.Properties["kind"]; !ok {
+			crSchema.Properties["kind"] = *spec.StringProperty()
+		}
 		crSchema.Properties["metadata"] = *spec.RefSchema("#/components/schemas/io.k8s.apimachinery.pkg.apis.meta.v1.ObjectMeta")
 		crSchema.AddExtension("x-kubernetes-group-version-kind", []interface{}{map[string]interface{}{"group": gvk.Group, "version": gvk.Version, "kind": gvk.Kind}})
 		schemas["cr."+gvk.Group+"."+gvk.Version+"."+gvk.Kind] = crSchema
